@@ -452,10 +452,34 @@ def adevice_poly(rng, n, sign='+', ucons=True):
   return d
 
 
-def gen_world(rng, tier):
+def cubic_adevice(rng, n):
+  """an ADevice whose f is a sum of a cubic Poly2D and a Poly2DOffset (second derivative not constant)."""
+  d = gen.gen_leaf(rng, 'quick', ['ADevice'], n=n)
+  lb, hb = gen.gen_bounds(rng, n, sign='+')
+  d['lb'] = [fs(x) for x in lb]; d['hb'] = [fs(x) for x in hb]; d['cbs'] = []; d['_py']['cform'] = None; d['_py']['bform'] = 'table'
+  d['prm']['f'] = {'k': 'add', 'f': {'k': 'poly', 'cs': [[fs(dy(rng, 1, 8, 2)/4), fs(dy(rng, 0, 2)), fs(dy(rng, -2, 2)), '0'] for _ in range(n)], 'off': '0'},
+                   'g': {'k': 'poly', 'cs': [[fs(dy(rng, 0, 2)), fs(dy(rng, -2, 2)), fs(dy(rng, -2, 2))] for _ in range(n)],
+                         'off': [fs(dy(rng, -2, 2)) for _ in range(n)], '_offset': True}}
+  d['ucons'] = gen.gen_ucons(rng, n, lb, hb)
+  return d
+
+
+def gen_world(rng, tier, force_cls=None):
   n = rng.choice([1, 2, 3, 3, 4, 5] if tier == 'quick' else [1, 2, 3, 4, 5, 6, 7, 8])
   kind = rng.choice(['tree']*6 + ['leaf']*2 + ['mf']*2)
-  if kind == 'tree':
+  if force_cls is not None:
+    n = rng.choice([2, 3, 4])
+    kind = 'forced'
+    if force_cls == 'ADevice':
+      d = cubic_adevice(rng, n)
+    elif force_cls == 'ADevice0':            # no f given: the class-level default NullFunction instance
+      d = gen.gen_leaf(rng, tier, ['ADevice'], n=n); d['prm'].pop('f', None)
+    else:
+      d = gen.gen_leaf(rng, tier, [force_cls], n=n)
+      if force_cls == 'GDevice' and not isinstance(d['prm']['cost_coeffs'][0], list):
+        d['prm']['cost_coeffs'] = [[fs(dy(rng, 1, 4)/4), fs(dy(rng, 0, 2)), fs(dy(rng, 0, 2)), '0'] for _ in range(n)]   # per-slot cubics
+    T = {'k': 'leaf', 'id': 'd1', 'dev': d}
+  elif kind == 'tree':
     T, n = gen.gen_tree(rng, tier, n=n, depth=rng.choice([1, 1, 2, 2, 3]), want_mf=True if rng.random() < 0.6 else None)
     if rng.random() < 0.6:
       # an adaptor over an ADevice with user constraints and cached polynomials (the anchor of the property)
@@ -487,6 +511,8 @@ def gen_world(rng, tier):
       T['ratios'] = [fs(dy(rng, 1, 3)), fs(dy(rng, 1, 3))]; T['ctype'] = rng.choice(['eq', 'ineq'])
   for b in each_dev(T):
     b['dev'].setdefault('_py', {})['blist'] = rng.random() < 0.6
+    if force_cls is None and b['dev']['cls'] == 'ADevice' and b['id'] not in ('mx', 'ax') and rng.random() < 0.2:
+      b['dev']['prm'].pop('f', None)        # default f: one NullFunction instance shared by every such ADevice
     if b['dev']['n'] == 2 and b['dev']['_py'].get('bform') == 'pair':
       b['dev']['_py']['bform'] = 'table'
   assign_ids(T, [0])
@@ -529,7 +555,22 @@ def buf_shape(op):
   return 'flat' if op['o'] in ('callFun', 'callJac') else op.get('shape', 'mat')
 
 
-def gen_ops(rng, tier, walk, world, n, count, nearly=0):
+def perturb(rng, flat, lb, hb):
+  """C12 says nothing about feasibility of the arguments of read-only calls: push some entries out of the box and
+  make some of them noise-sized (1e-12)."""
+  out = list(flat)
+  for i in rng.sample(range(len(out)), max(1, len(out)//3)):
+    q = rng.random()
+    if q < 0.35:
+      out[i] = hb[i] + dy(rng, Fraction(1, 4), 2)
+    elif q < 0.7:
+      out[i] = lb[i] - dy(rng, Fraction(1, 4), 2)
+    else:
+      out[i] = Fraction(rng.choice([1, -1, 3]), 10**12)
+  return out
+
+
+def gen_ops(rng, tier, walk, world, n, count, nearly=0, directed=False):
   """the history (`count` draws; a draw may add a child-then-parent pair) and `nearly` operations executed on a
   device right after IT is constructed, i.e. before its parents exist."""
   ids = w_ids(world['root'])
@@ -548,27 +589,31 @@ def gen_ops(rng, tier, walk, world, n, count, nearly=0):
     if q < 0.7 or rows == 1:
       return [fs(dy(rng, -3, 3, 3)) for _ in range(n)]
     return [[fs(dy(rng, -3, 3, 3)) for _ in range(n)] for _ in range(rows)]
-  def mk_op(o, t, history):
+  def mk_op(o, t, history, force_buf=False, shape=None, **fixed):
     dev = w_find(world['root'], t)
     rows, lb, hb = target_box(walk, t, n)
     # evaluations get interior flows (on a bound some shipped cost curves raise 0**negative — C10's subject, and a
     # raise in the middle of a tree evaluation is a partial evaluation the model does not describe)
     flat = gen.gen_flow(rng, lb, hb, 'interior' if o in ('cost', 'deriv', 'hess', 'solve', 'step') else None)
-    if o in ('project', 'map', 'callFun', 'callJac', 'uproject') and rng.random() < 0.3:
-      flat = [x + dy(rng, -2, 2) for x in flat]     # outside the box: projection / constraints still must not mutate
+    if o in S_POS or o in ('solve', 'uproject'):
+      if rng.random() < 0.3:
+        flat = perturb(rng, flat, lb, hb)           # out-of-box / noise-sized entries: reads still must not write
     S = [[fs(x) for x in flat[r*n:(r + 1)*n]] for r in range(rows)]
     op = {'o': o, 't': t, 'rows': rows}
     if o in ('cost', 'deriv'):
-      op.update({'s': S, 'p': price(rows), 'shape': rng.choice(['mat', 'mat', 'flat'])}); k = 2
+      op.update({'s': S, 'p': price(rows), 'shape': shape or rng.choice(['mat', 'mat', 'flat'])}); k = 2
     elif o in ('hess', 'project', 'map'):
-      op.update({'s': S, 'shape': 'mat' if o == 'map' else rng.choice(['mat', 'flat'])}); k = 1
+      op.update({'s': S, 'shape': 'mat' if o == 'map' else (shape or rng.choice(['mat', 'flat']))}); k = 1
     elif o in ('callFun', 'callJac'):
       nc = w_ncons(dev)
       op.update({'s': S, 'i': (rng.randrange(nc) if nc and rng.random() < 0.95 else nc)}); k = 1
     elif o == 'solve':
       # None = the documented defaults; an explicit dict must not leak into later default calls
       opts = None if rng.random() < 0.45 else {'maxiter': rng.choice([3, 15, 40]), 'ftol': rng.choice([1e-6, 1e-2, 1e-1])}
-      op.update({'p': price(rows), 's0': S if rng.random() < 0.5 else None, 'opts': opts}); k = 3
+      # zero price: wherever a row has no cost of its own the minimiser is not unique and the start decides
+      op.update({'p': '0' if rng.random() < 0.35 else price(rows), 's0': S if rng.random() < 0.5 else None, 'opts': opts,
+                 'prox': fs(dy(rng, Fraction(1, 2), 4)) if rng.random() < 0.3 else None, 'cb': rng.random() < 0.2}); k = 3
+      op.update(fixed)
     elif o == 'step':
       op.update({'p': price(rows), 's': S, 'stepsize': fs(dy(rng, 0, 2)), 'opts': None if rng.random() < 0.5 else {'maxiter': 20}}); k = 3
     elif o == 'uproject':
@@ -582,7 +627,7 @@ def gen_ops(rng, tier, walk, world, n, count, nearly=0):
     a = list(range(cell[0], cell[0] + k)); cell[0] += k
     # re-use of one caller-owned buffer: the caller writes this op's flow INTO the array an earlier call on the same
     # device was given (in place) and passes that same ndarray again
-    if history and o in S_POS and rng.random() < 0.45:
+    if history and o in S_POS and (force_buf or rng.random() < 0.45):
       for j in range(len(ops) - 1, -1, -1):
         q = ops[j]
         if q.get('t') == t and q['o'] in S_POS and buf_shape(q) == buf_shape(op):
@@ -595,12 +640,23 @@ def gen_ops(rng, tier, walk, world, n, count, nearly=0):
           break
     op['a'] = a
     return op
+  if directed:
+    # every run re-uses one caller-owned buffer on every leaf class: write A, call, write B in place, call
+    t = ids[0][0]
+    for o in ('cost', 'deriv', 'hess', 'map', 'project', 'callFun', 'callJac', 'cost'):
+      if o in ('callFun', 'callJac') and not w_ncons(w_find(world['root'], t)):
+        continue
+      ops.append(mk_op(o, t, True, shape='mat'))
+      ops.append(mk_op(o, t, True, force_buf=True, shape='mat'))
   while len(ops) < count:
     o = rng.choice(OPS)
     if o == 'cacheClear':
       ops.append({'o': o}); continue
     t = rng.choice(pool)
     ops.append(mk_op(o, t, True))
+    if o == 'solve' and ops[-1].get('prox') and rng.random() < 0.7:
+      # a proximal solve, then a plain one at the same price without a start point
+      ops.append(mk_op('solve', t, True, p=ops[-1]['p'], s0=None, prox=None, opts=None))
     if parents.get(t) is not None and len(ops) < count and rng.random() < 0.25:      # child first, then its parent / adaptor
       ops.append(mk_op(o, parents[t], True))
   early = []
@@ -610,10 +666,16 @@ def gen_ops(rng, tier, walk, world, n, count, nearly=0):
   return ops, early, cell[0]
 
 
-def gen_case(rng, tier):
-  T, n = gen_world(rng, tier)
+DIRECTED_CLASSES = gen.LEAF_CLASSES + ['ADevice0']
+
+
+def gen_case(rng, tier, force_cls=None):
+  """`force_cls`: a single leaf of that class with the directed same-buffer pairs in front of the random history."""
+  T, n = gen_world(rng, tier, force_cls)
   walk = Walk(T, n, False)
   world = walk.world(0)
   count = rng.randint(3, 12) if tier == 'quick' else rng.randint(5, 60)
-  ops, early, ncell = gen_ops(rng, tier, walk, world, n, count, rng.choice([0, 0, 1, 2, 3]))
+  if force_cls is not None:
+    count = 16 + rng.randint(0, 4)
+  ops, early, ncell = gen_ops(rng, tier, walk, world, n, count, rng.choice([0, 0, 1, 2, 3]) if force_cls is None else 0, directed=force_cls is not None)
   return {'tree': T, 'n': n, 'ops': ops, 'early': early, 'ncaller': ncell}
